@@ -831,10 +831,10 @@ func (in *Inst) scanContractMods(lp *Loop, con *Contract, c *ssa.CallCommon, cal
 				*unknownMem = true
 			}
 		case modField:
+			baseRef := ""
 			if sel, ok := mi.Expr.(*ast.SelectorExpr); ok {
 				ghost := false
 				// x.f where x is a parameter bound to a loop-invariant actual: only that object changes
-				baseRef := ""
 				if id, isId := sel.X.(*ast.Ident); isId && lp != nil {
 					var actuals []ssa.Value
 					if c.IsInvoke() {
@@ -868,13 +868,150 @@ func (in *Inst) scanContractMods(lp *Loop, con *Contract, c *ssa.CallCommon, cal
 					continue
 				}
 			}
+			if con.Sig == nil {
+				// the contract has not been bound to a signature yet (its function was not verified or called
+				// before this loop is scanned): take it from the call
+				if callee != nil {
+					con.Sig = callee.Signature
+				} else if c != nil && c.IsInvoke() {
+					con.Sig, _ = c.Method.Type().(*types.Signature)
+				} else if c != nil {
+					con.Sig = c.Signature()
+				}
+			}
+			if sel, ok := mi.Expr.(*ast.SelectorExpr); ok && sel.Sel.Name == "_all" {
+				// x._all: every field of the object x points to (nested structs included); other objects of the
+				// same type keep their fields when x is loop-invariant
+				T := paramElemType(con, sel.X)
+				if T == nil {
+					m.all = true
+					continue
+				}
+				if baseRef != "" {
+					var addObj func(r string, T types.Type)
+					addObj = func(r string, T types.Type) {
+						stt, ok := T.Underlying().(*types.Struct)
+						if !ok {
+							return
+						}
+						for i := 0; i < stt.NumFields(); i++ {
+							p := e.fieldAddr(r, T, i)
+							ft := stt.Field(i).Type()
+							switch ft.Underlying().(type) {
+							case *types.Struct:
+								addObj(p.T, ft)
+							case *types.Array:
+								m.mem = true
+								*unknownMem = true
+							default:
+								if !m.comps[p.F] {
+									m.fieldAt[p.F] = append(m.fieldAt[p.F], p.T)
+								}
+							}
+						}
+					}
+					addObj(baseRef, T)
+					continue
+				}
+				for _, name := range e.allComps(T) {
+					delete(m.fieldAt, name)
+					m.comps[name] = true
+				}
+				if hasArrayField(T, 0) {
+					m.mem = true
+					*unknownMem = true
+				}
+				continue
+			}
 			comps := e.W.fieldCompsOf(e, con, mi)
+			if len(comps) == 0 {
+				// unresolved field path: the loop may change anything
+				m.all = true
+				continue
+			}
+			if baseRef != "" && len(comps) == 1 && strings.HasPrefix(comps[0], "F:") && directScalarField(con, mi) {
+				// x.f, f a scalar/slice/pointer field of the struct x points to, x loop-invariant: only that object
+				if !m.comps[comps[0]] {
+					m.fieldAt[comps[0]] = append(m.fieldAt[comps[0]], baseRef)
+				}
+				continue
+			}
 			for _, name := range comps {
 				delete(m.fieldAt, name)
 				m.comps[name] = true
 			}
 		}
 	}
+}
+
+// paramElemType: x is a parameter of pointer-to-struct type; the struct type.
+func paramElemType(con *Contract, x ast.Expr) types.Type {
+	id, ok := x.(*ast.Ident)
+	if !ok || con.Sig == nil {
+		return nil
+	}
+	var all []*types.Var
+	if con.Sig.Recv() != nil {
+		all = append(all, con.Sig.Recv())
+	}
+	for i := 0; i < con.Sig.Params().Len(); i++ {
+		all = append(all, con.Sig.Params().At(i))
+	}
+	for i, pn := range con.Params {
+		if pn == id.Name && i < len(all) {
+			T := all[i].Type()
+			if pt, ok := T.Underlying().(*types.Pointer); ok {
+				T = pt.Elem()
+			}
+			if _, ok := T.Underlying().(*types.Struct); ok {
+				return T
+			}
+		}
+	}
+	return nil
+}
+
+// directScalarField: the modifies item is x.f with x a parameter of pointer-to-struct type and f a field declared
+// directly in that struct whose type is not a struct or array (so its component is indexed by x itself).
+func directScalarField(con *Contract, mi ModItem) bool {
+	sel, ok := mi.Expr.(*ast.SelectorExpr)
+	if !ok || con.Sig == nil {
+		return false
+	}
+	id, ok := sel.X.(*ast.Ident)
+	if !ok {
+		return false
+	}
+	var all []*types.Var
+	if con.Sig.Recv() != nil {
+		all = append(all, con.Sig.Recv())
+	}
+	for i := 0; i < con.Sig.Params().Len(); i++ {
+		all = append(all, con.Sig.Params().At(i))
+	}
+	for i, pn := range con.Params {
+		if pn != id.Name || i >= len(all) {
+			continue
+		}
+		pt, ok := all[i].Type().Underlying().(*types.Pointer)
+		if !ok {
+			return false
+		}
+		st, ok := pt.Elem().Underlying().(*types.Struct)
+		if !ok {
+			return false
+		}
+		for k := 0; k < st.NumFields(); k++ {
+			if st.Field(k).Name() == sel.Sel.Name {
+				switch st.Field(k).Type().Underlying().(type) {
+				case *types.Struct, *types.Array:
+					return false
+				}
+				return true
+			}
+		}
+	}
+	return false
 }
 
 // ---------------------------------------------------------------------------
